@@ -158,7 +158,10 @@ fn gen_metal(src: &mut Src, horiz: bool, pp: i64, allow_asym_flip: bool) -> MMet
     entries[mid].1 += target - total;
     // sometimes written with a Repeat group (gap, signal) when the signals are uniform
     let repeat = None;
-    MMetal { horiz, entries, repeat, offset, overlap, flip, cutsize: even(src, 2, 12), m }
+    let mut mm = MMetal { horiz, entries, repeat, offset, overlap, flip, cutsize: even(src, 2, 12), m };
+    // an offset may be a pitch or more: the whole pattern is shifted by that many periods
+    mm.offset += mm.pitch() * *src.pick(&[0i64, 0, 0, 0, 1, -1, 2]);
+    mm
 }
 pub fn gen_stack(src: &mut Src, allow_asym_flip: bool) -> MStack {
     let px = 20 * src.i64_in(6, 20);
